@@ -357,6 +357,44 @@ def where(cond, *args):
     return wrap(_np.where(cond, a, b))
 
 
+def _binary_ufunc(op, name):
+    """np.divide / multiply / add / subtract incl. the ``out=`` / ``where=`` form: where the mask is false the result keeps ``out``"""
+    def f(a, b, out=None, where=True, **k):
+        if not (_has_sym(a) or _has_sym(b) or _has_sym(where) or isinstance(where, SymBool)):
+            kw = dict(k)
+            if out is not None:
+                kw['out'] = unwrap(out)
+            if where is not True:
+                kw['where'] = unwrap(where)
+            return _post(getattr(_np, name)(unwrap(a), unwrap(b), **kw))
+        if where is True:
+            return op(a, b)
+        if isinstance(where, SymBool) or isinstance(where, (bool, _np.bool_)):
+            if S._truth(where):
+                return op(a, b)
+            if out is None:
+                raise S.Unsupported('np.%s(where=False) without out= leaves the result uninitialised' % name)
+            return out
+        if out is None:
+            raise S.Unsupported('np.%s(where=...) without out= leaves masked entries uninitialised' % name)
+        cond = _boolify(_np.asarray(where))
+        a_, b_, o_ = _np.broadcast_arrays(_np.asarray(a, dtype=object), _np.asarray(b, dtype=object), _np.asarray(out, dtype=object))[:3]
+        cond = _np.broadcast_to(cond, a_.shape)
+        res = _np.empty(a_.shape, dtype=object)
+        for ix in _np.ndindex(a_.shape):
+            res[ix] = op(a_[ix], b_[ix]) if cond[ix] else o_[ix]
+        return wrap(res)
+    f.__name__ = name
+    return f
+
+
+divide = _binary_ufunc(lambda x, y: x / y, 'divide')
+true_divide = _binary_ufunc(lambda x, y: x / y, 'true_divide')
+multiply = _binary_ufunc(lambda x, y: x * y, 'multiply')
+add = _binary_ufunc(lambda x, y: x + y, 'add')
+subtract = _binary_ufunc(lambda x, y: x - y, 'subtract')
+
+
 def logical_and(a, b):
     if isinstance(a, _np.ndarray) or isinstance(b, _np.ndarray):
         return _np.logical_and(_boolify(_np.asarray(a)), _boolify(_np.asarray(b)))
